@@ -124,6 +124,8 @@ type Interp struct {
 	uuidStrs map[*Term]Value
 	bolts    map[*Loc]*boltBucket
 	cursors  map[*Loc]*boltCursor
+	bitsets  map[*Loc]*bitsetObj
+	builders map[*Loc]*[]*Term
 	ghost    map[string]Value
 	conc     *concState
 	mapOrderOverride int
@@ -476,6 +478,8 @@ func (in *Interp) runOnce(fn *ssa.Function) {
 	in.uuidStrs = map[*Term]Value{}
 	in.bolts = map[*Loc]*boltBucket{}
 	in.cursors = map[*Loc]*boltCursor{}
+	in.bitsets = map[*Loc]*bitsetObj{}
+	in.builders = map[*Loc]*[]*Term{}
 	in.mapOrderOverride = -1
 	in.steps = 0
 	in.depth = 0
